@@ -108,6 +108,11 @@ GOARGS = [("go-variadic-sum", "out = make(chan interface, 64)\nsend = func(c, v,
           ("go-variadic-then-calls", "out = make(chan interface, 8)\nsend = func(c, v, r...) {\n c <- v\n}\nother = func(x, r...) { return x }\ngo send(out, \"A\")\nother(\"B\")\nother(\"C\", 1, 2)\n<-out")]
 
 
+# the address of a nil that was never bound to a variable is not the address of THE nil
+RAW += [("addr-nil-noresult", "func nothing() { }\np = &nothing()\n*p = 1\n[nothing(), nil]"), ("addr-nil-missing-key", "m = {}\np = &m[\"zz\"]\n*p = 2\n[m[\"zz\"], m.q, nil]"),
+        ("addr-nil-ternary", "p = &(true ? nil : 0)\n*p = 3\nq = {}\n[nil, q.k]"), ("addr-nil-paren-call", "f = func() { return }\np = &(f())\n*p = 4\n[f(), nil]")]
+
+
 def cases():
     return ([{"id": "raw-" + n, "src": s, "concfirst": True} for n, s in FRESH] + [{"id": "raw-" + n, "src": s} for n, s in GOARGS] +
             [{"id": "raw-" + n, "src": s} for n, s in RAW] +
